@@ -229,8 +229,9 @@ def apply_lemma(req):
         out['schema'] = {'prem': [B.to_json(p) for p in prem], 'conc': B.to_json(conc), 'nvars': nv,
                          'bind': [[SVBASE + pmap[n], B.to_json(x)] for (k, x), n in zip(args, names) if k == 'pattern'],
                          'doc': (getattr(Tautology, req['entry']).__doc__ or '').strip()}
-    out['interps'] = run_under_all(t, B)
-    for opt in (False, True):
+    if req.get('interps', True):
+        out['interps'] = run_under_all(t, B)
+    for opt in req.get('traces', (False, True)):
         tr = modules.trace_module(t, opt, B)
         out['trace_opt' if opt else 'trace'] = tr
     return out
